@@ -400,6 +400,70 @@ def job_legacy_range(seed, shapes=((1,), (2,), (1, 2), (3,))):
     return obs
 
 
+def job_legacy_normalize(seed, sizes=(1, 2, 3)):
+    """legacy Histogram::Normalize (public; reached from ProcessData with normalize_, also after the bond / angle scaling, i.e. on non-integer contents):
+    afterwards interval_ * sum(pdf_) == 1 and every bin is the old bin divided by interval_ * sum(old).  std::accumulate / std::transform enter by their
+    contracts; the accumulator of std::accumulate has the type of its initial value."""
+    rvc.reset()
+    rel = 'tools/src/libtools/histogram.cc'
+    fns = rvc.functions(rvc.ast(rel, 'Histogram::Normalize'))
+    if 'Normalize' not in fns:
+        raise core.Undecided('front end: Histogram::Normalize not found')
+    fn = fns['Normalize'][0]
+    F = 'Histogram::Normalize'
+    obs = []
+    for n in sizes:
+        bound = '%d bins' % n
+        h = sp.Symbol('interval', positive=True)
+        p0 = [sp.Symbol('p%d' % i, nonnegative=True) for i in range(n)]
+        rvc.CTX.base = [z3.Real('interval') > 0] + [z3.Real('p%d' % i) >= 0 for i in range(n)] + [sum(z3.Real('p%d' % i) for i in range(n)) > 0]
+        this = {'pdf_': [D(v) for v in p0], 'interval_': D(h), 'min_': D(0), 'max_': D(1)}
+        conv = []
+        def to_integral(v, ty):
+            # contract of a double -> integer conversion of a non-negative value: truncation, t <= v < t + 1
+            t = sp.Symbol('t%d' % len(conv), integer=True, nonnegative=True)
+            zt = z3.Int('t%d' % len(conv))
+            conv.append(z3.And(z3.ToReal(zt) <= rvc.to_z3(D.lift(v).v), rvc.to_z3(D.lift(v).v) < z3.ToReal(zt) + 1, zt >= 0))
+            return D(t)
+        ex = Exec({}, {'to_integral': to_integral}, {}, this)
+        try:
+            ex.stmt(rvc.body_of(fn))
+        except Ret:
+            pass
+        tag = 'n%d' % n
+        S = sum(p0)
+        if len(this['pdf_']) != n:
+            obs.append(Ob('C13.legacy.normalize/%s/size' % tag, F, 'the number of bins is unchanged', 'RVC', 'symbolic execution', core.REFUTED, 0, 'bins after: %d' % len(this['pdf_']), witness={'bins_after': len(this['pdf_'])}, bound=bound))
+            continue
+        after = [D.lift(v).v for v in this['pdf_']]
+        if not conv:
+            for i in range(n):
+                obs.append(rvc.identity('C13.legacy.normalize/%s/ratio%d' % (tag, i), F, "bin_i' == bin_i / (interval * sum(bins)): bin ratios unchanged", after[i], p0[i] / (S * h), seed, bound=bound))
+            obs.append(rvc.identity('C13.legacy.normalize/%s/integral' % tag, F, "interval * sum(bins') == 1 for any non-negative contents with a positive sum (also non-integer ones: bond / angle scaling)", h * sum(after), sp.Integer(1), seed, bound=bound))
+        else:
+            # a conversion happened inside: decide with z3 over the conversion contract (cleared of the division: interval * sum(bins') == 1  <=>  sum(bins') * interval == 1)
+            zs = sum(rvc.to_z3(a) for a in after) * z3.Real('interval')
+            o = rvc.logic('C13.legacy.normalize/%s/integral' % tag, F, "interval * sum(bins') == 1 for any non-negative contents with a positive sum (also non-integer ones: bond / angle scaling)",
+                          zs == 1, pc=conv + [rvc.to_z3(sp.Symbol('t%d' % (len(conv) - 1), integer=True)) > 0], bound=bound, small=[z3.Real('interval') == 1] + [z3.Real('p%d' % i) * 4 == z3.ToReal(z3.Int('q%d' % i)) for i in range(n)])
+            o['detail'] = (o.get('detail') or '') + '; %d double -> integer conversions inside the sum (std::accumulate with an integral accumulator)' % len(conv)
+            obs.append(o)
+    bad = [o for o in obs if o['status'] == core.REFUTED]
+    if bad:
+        try:
+            exe = native.build('C13.legacy.norm', open(os.path.join(CDIR, 'replay_legacy_normalize.cc')).read(), ['tools/src/libtools/histogram.cc'])
+            rc, out, err = native.execute(exe, [])
+            for o in bad:
+                o['replay'] = {'reproduced': rc == 1, 'cmd': exe, 'rc': rc, 'stdout': out[-500:], 'stderr': err[-300:], 'input_from': 'fixed inputs in the domain of the contract (bond / angle scaling with normalisation; normalising twice)',
+                               'against': 'real Histogram::ProcessData / Normalize (histogram.cc) with ASan+UBSan'}
+        except core.Undecided as e:
+            for o in bad:
+                o['replay'] = {'reproduced': False, 'error': str(e)}
+    mf = [{'name': 'Histogram::Normalize', 'file': rel, 'ast_nodes': rvc.node_count(fn), 'route': 'RVC'}]
+    for o in obs:
+        o['functions'] = mf
+    return obs
+
+
 def collect(obs):
     seen = set(f['name'] + f.get('route', '') for f in META['functions'])
     for o in obs:
@@ -410,7 +474,7 @@ def collect(obs):
 
 
 def run(tier, seed, only=None):
-    jobs = [(process_ccv, (tier,)), (job_process_logic, (seed,)), (job_initialize, (seed,)), (job_initialize_allN, (seed,)), (job_normalize, (seed,)), (job_legacy_range, (seed,))]
+    jobs = [(process_ccv, (tier,)), (job_process_logic, (seed,)), (job_initialize, (seed,)), (job_initialize_allN, (seed,)), (job_normalize, (seed,)), (job_legacy_range, (seed,)), (job_legacy_normalize, (seed,))]
     if only:
         import re as _re
         jobs = [j for j in jobs if _re.search(only, j[0].__name__)]
